@@ -224,11 +224,11 @@ func (r linkDestinationReplacer) scanInlineLinks(line []byte, lineStart int, src
 		if codeSpanLen > 0 {
 			if c == '`' {
 				run := countRun(line, i, '`')
-				if run == codeSpanLen && (i+run >= len(line) || line[i+run] != '`') {
+				if run == codeSpanLen {
 					codeSpanLen = 0
-					i += run
-					continue
 				}
+				i += run
+				continue
 			}
 			i++
 			continue
